@@ -503,7 +503,8 @@ class Item:
     def insert_after_stmt(self, anchor_src, nth, text):
         """insert after the `;` that ends the statement containing the nth occurrence of anchor"""
         pat = texts(tokenize(anchor_src))
-        hits = find_seq(self.toks, pat)
+        # anchors are code tokens (from /repo or produced by an earlier code edit), never contract text
+        hits = [h for h in find_seq(self.toks, pat) if all(self.toks[h + k].line != 0 for k in range(len(pat)))]
         if nth < 1 or nth > len(hits):
             raise LostAnchor("anchor `%s` #%d not found in %s (%d hits)"
                              % (" ".join(pat), nth, self.path, len(hits)))
@@ -532,7 +533,7 @@ class Item:
 
     def insert_before(self, anchor_src, nth, text, after=False):
         pat = texts(tokenize(anchor_src))
-        hits = find_seq(self.toks, pat)
+        hits = [h for h in find_seq(self.toks, pat) if all(self.toks[h + k].line != 0 for k in range(len(pat)))]
         if nth < 1 or nth > len(hits):
             raise LostAnchor("anchor `%s` #%d not found in %s (%d hits)"
                              % (" ".join(pat), nth, self.path, len(hits)))
@@ -592,7 +593,7 @@ class Item:
 
     ITER_ADAPTERS = ("filter", "map", "filter_map", "skip_while", "take_while", "enumerate")
 
-    def desugar_iter_chain(self, anchor_src, nth, elem, out="__out"):
+    def desugar_iter_chain(self, anchor_src, nth, elem, out="__out", call=None):
         """SRC.a1(c1).a2(c2)...[.collect()]  ==>  { let mut out: Vec<ELEM> = Vec::new(); for __x0 in SRC { .. } out }
         where every adapter (filter, map, filter_map, skip_while, take_while, enumerate) becomes its
         std-documented per-element step with the closure body inlined verbatim (closure parameters become
@@ -655,6 +656,12 @@ class Item:
                 raise LostAnchor("desugar-iter-chain: malformed collect")
             pos = q + 2
             terminal = "collect"
+        wrapfn = None
+        if call:
+            meth, _, wrapfn = call.partition(":")
+            if texts(T[pos:pos + 4]) != [".", meth, "(", ")"]:
+                raise LostAnchor("desugar-iter-chain: chain in %s is not followed by .%s()" % (self.path, meth))
+            pos += 4
         line = T[h].line
 
         def sc(txt):
@@ -711,10 +718,12 @@ class Item:
                 k += 1
         body += sc("\n %s.push(__x%d);" % (out, k)) + sc(" }" * closers)
         new = pre + sc("\n for __x0 in") + src + sc(" {") + body + sc("\n } %s }" % out)
+        if wrapfn:
+            new = sc(wrapfn + "(") + new + sc(")")
         new[0].ws = T[h].ws if T[h].ws else " "
         self.toks[h:pos] = new
         self.log.append({"kind": "desugar-iter-chain", "source": " ".join(pat),
-                         "stages": [st[0] for st in stages], "terminal": terminal, "elem": elem,
+                         "stages": [st[0] for st in stages], "terminal": terminal, "elem": elem, "consumer": call,
                          "why": "std-documented per-element semantics of the adapters; closure bodies inlined verbatim",
                          "drops": "laziness; the iterator's concrete type (value is a Vec)"})
 
